@@ -1,13 +1,15 @@
 SPECIFICATION Spec
 CONSTANTS
-  Msgs = {"a", "b", "c"}
+  Msgs = {1, 2, 3}
   TL = 1
   ML = 0
   MaxRetries = 1
+  Late = FALSE
   Repaired = TRUE
   Prefetch = 2
   FinishMode = "taken"
 INVARIANT Conservation
+INVARIANT SlotsSound
 INVARIANT RunningBound
 INVARIANT StartedBound
 INVARIANT AtReturn
